@@ -354,3 +354,77 @@ def m4(ctx):
 def m5(ctx):
     from .c02 import e4
     return e4(ctx)
+
+
+def charset_strips(ctx, modules):
+    """[(fi, call)] for ``x.lstrip(E)`` / ``x.rstrip(E)`` / ``x.strip(E)`` whose argument is not a constant (a str
+    constant argument is a deliberate character set such as "/" or '"'): with a variable argument the call removes
+    every leading character that occurs in E, it does not remove the prefix E."""
+    out = []
+    for mname in modules:
+        for fi in ctx.P.funcs_in_module(mname):
+            for c in walk_local(fi.node):
+                if isinstance(c, ast.Call) and isinstance(c.func, ast.Attribute) and c.func.attr in ("lstrip", "rstrip", "strip") and c.args:
+                    v = ctx.P.try_fold(fi.module, c.args[0])
+                    if not isinstance(v, (str, bytes)):
+                        out.append((fi, c))
+    return out
+
+
+PATH_MODULES = ("xandikos.webdav", "xandikos.web", "xandikos.caldav", "xandikos.carddav", "xandikos.davcommon", "xandikos.sync",
+                "xandikos.wsgi", "xandikos.wsgi_helpers", "xandikos.scheduling", "xandikos.access", "xandikos.quota", "xandikos.timezones", "xandikos.infit")
+
+
+def strip_obligations(ctx):
+    obs = []
+    hits = charset_strips(ctx, [m for m in PATH_MODULES if m in ctx.P.modules])
+    for fi, c in hits:
+        obs.append(ctx.bad(fi.qualname, "%s:%d" % (fi.module.rel, c.lineno), "prefix removed by slicing, not by a character-set strip",
+                           "`%s` strips a *set of characters* taken from a variable, not a prefix: with the route prefix '/caldav' the path "
+                           "'/caldav/alice/...' loses the leading 'al' of 'alice' as well, so the request or href is resolved to another resource (or to none)"
+                           % src(c)[:70]))
+    obs.append(ctx.ob(not hits, "xandikos (DAV layer)", "xandikos/", "no variable character-set strip on paths",
+                      "every lstrip/rstrip/strip in the DAV layer has a constant argument", "character-set strips with a variable argument"))
+    return obs
+
+
+@rule("C17", "M6", floor=3, kind="S",
+      desc="an href names the resource it spells: the route prefix is removed by slicing/removeprefix (never by "
+           "str.lstrip(prefix), which strips a character set), and the path of an {DAV:}href is taken with urlsplit "
+           "(urlparse cuts ';params' off the last segment)")
+def m6(ctx):
+    obs = strip_obligations(ctx)
+    hp = ctx.func("xandikos.webdav.href_to_path")
+    cfg = ctx.cfg(hp)
+    du = DefUse(cfg)
+    # the returned path is href[len(prefix):] / href.removeprefix(prefix), under the startswith(prefix) guard
+    rets = [n for n in cfg.nodes if n.kind == "return" and n.ast.value is not None and not (isinstance(n.ast.value, ast.Constant) and n.ast.value.value is None)]
+    p_href = hp.params[1] if len(hp.params) > 1 else "href"
+    good = bool(rets)
+    for r in rets:
+        ok_r = False
+        for o in origins(du, r, r.ast.value):
+            v = o.leaf
+            if o.kind != "expr" or v is None:
+                continue
+            for x in ast.walk(v):
+                if isinstance(x, ast.Subscript) and isinstance(x.slice, ast.Slice) and x.slice.upper is None and isinstance(x.slice.lower, ast.Call) \
+                        and dotted(x.slice.lower.func) == "len":
+                    bo = origins(du, o.node, x.value)
+                    if bo and all(b.kind == "param" and b.name == p_href for b in bo):
+                        ok_r = True
+                if isinstance(x, ast.Call) and isinstance(x.func, ast.Attribute) and x.func.attr == "removeprefix":
+                    bo = origins(du, o.node, x.func.value)
+                    if bo and all(b.kind == "param" and b.name == p_href for b in bo):
+                        ok_r = True
+        good = good and ok_r
+    obs.append(ctx.ob(good, hp.qualname, hp.where, "href_to_path removes exactly the prefix", "href[len(script_name):]",
+                      "href_to_path does not compute the path as href[len(prefix):] / href.removeprefix(prefix)"))
+    rh = ctx.func("xandikos.webdav.read_href_element")
+    calls = [c for c in walk_local(rh.node) if isinstance(c, ast.Call) and (dotted(c.func) or "").split(".")[-1] in ("urlparse", "urlsplit")]
+    bad = [c for c in calls if (dotted(c.func) or "").split(".")[-1] == "urlparse"]
+    obs.append(ctx.ob(bool(calls) and not bad, rh.qualname, rh.where, "read_href_element takes the path with urlsplit",
+                      "urlsplit(...).path keeps ';' in the last segment",
+                      "read_href_element parses the href with urlparse: its .path drops everything after a ';' in the last segment, so a member whose "
+                      "name contains ';' is looked up under a truncated name (404 for an href nobody asked for)"))
+    return obs
